@@ -584,6 +584,9 @@ type streamFaults struct {
 	allowFatal bool
 	events     int
 	fired      string
+	// gate, if set: the server is merely slow. Requests are accepted, responses are withheld until
+	// the gate is closed (vsched.Close), then delivered in arrival order. The stream stays healthy.
+	gate chan struct{}
 }
 
 type fakeWS struct {
@@ -643,6 +646,13 @@ func (f *fakeWS) Send(req *proto.WriteRequest) error {
 }
 
 func (f *fakeWS) Recv() (*proto.WriteResponse, error) {
+	if f.faults.gate != nil {
+		g := vsched.Select(false, vsched.RecvCase(f.faults.gate), vsched.RecvCase(f.brokenCh), vsched.RecvCase(f.ctx.Done()))
+		if g.I != 0 {
+			f.cancel()
+			return nil, errStreamBroken
+		}
+	}
 	r := vsched.Select(false, vsched.RecvCase(f.avail), vsched.RecvCase(f.brokenCh), vsched.RecvCase(f.ctx.Done()))
 	if r.I != 0 || f.broken {
 		f.cancel()
@@ -665,6 +675,20 @@ type bVariant struct {
 	per     int
 	fatal   bool // a failing Send may also be a client-side error that finishes the stream (context cancelled inside Send)
 	dev     [2]int
+	// slow server: no stream failure; responses are withheld until a server thread opens the gate at
+	// virtual time +100 ms; the sends listed in deadline carry a context that expires at +50 ms
+	// (both are timers that may also fire early / late as scheduler alternatives)
+	slow     bool
+	deadline []int
+	executor bool // Sends go through the real executorImpl.ExecuteWrite (stream creation + wrapper)
+}
+
+// deadlineCtx is a context that expires at a virtual-time deadline (context.WithTimeout would use
+// the real clock).
+func (w *world) deadlineCtx(d time.Duration) context.Context {
+	ctx, cancel := context.WithCancelCause(context.Background())
+	w.s.NewFuncTimer(d, func() { cancel(context.DeadlineExceeded) })
+	return ctx
 }
 
 type sendRes struct {
@@ -677,9 +701,27 @@ func bodyB(v bVariant) func(s *vsched.Sched) {
 	return func(s *vsched.Sched) {
 		w := newWorld(s)
 		n := v.senders * v.per
-		faults := &streamFaults{failAt: s.Choose(2*n+1, true), allowFatal: v.fatal}
-		f := newFakeWS(w, context.Background(), faults)
-		sw := oxia.VerifC20NewStreamWrapper(0, f, w.onPanic("write-stream"))
+		faults := &streamFaults{allowFatal: v.fatal}
+		if v.slow {
+			faults.gate = make(chan struct{})
+		} else {
+			faults.failAt = s.Choose(2*n+1, true)
+		}
+		var send func(ctx context.Context, req *proto.WriteRequest) (*proto.WriteResponse, error)
+		failed := func() bool { return false }
+		if v.executor {
+			e := &execA{w: w, v: &aVariant{}, byReq: map[any]*batchRec{}}
+			ex := oxia.VerifC20NewRealExecutor(context.Background(), "default", &fakePool{e: e, streams: faults}, &fakeSM{n: 1})
+			send = ex.ExecuteWrite
+		} else {
+			f := newFakeWS(w, context.Background(), faults)
+			sw := oxia.VerifC20NewStreamWrapper(0, f, w.onPanic("write-stream"))
+			send, failed = sw.Send, sw.Failed
+		}
+		ctxs := make([]context.Context, n)
+		for k := range ctxs {
+			ctxs[k] = context.Background()
+		}
 		res := make([]sendRes, n)
 		for i := 0; i < v.senders; i++ {
 			i := i
@@ -687,11 +729,23 @@ func bodyB(v bVariant) func(s *vsched.Sched) {
 				for j := 0; j < v.per; j++ {
 					k := i*v.per + j
 					shard := int64(0)
-					resp, err := sw.Send(context.Background(), &proto.WriteRequest{Shard: &shard,
+					for _, d := range v.deadline {
+						if d == k {
+							ctxs[k] = w.deadlineCtx(50 * time.Millisecond)
+						}
+					}
+					resp, err := send(ctxs[k], &proto.WriteRequest{Shard: &shard,
 						Puts: []*proto.PutRequest{{Key: fmt.Sprintf("p%d", k+1), Value: []byte("v")}}})
 					res[k] = sendRes{true, resp, err}
 				}
 			})
+		}
+		if v.slow {
+			vsched.Go(func() { // the server catches up
+				s.Sleep(100 * time.Millisecond)
+				vsched.Close(faults.gate)
+			})
+			s.Sleep(time.Second)
 		}
 		s.Settle()
 		s.Explore(false)
@@ -712,8 +766,9 @@ func bodyB(v bVariant) func(s *vsched.Sched) {
 			case !r.done:
 				s.Fail("send-pending", fmt.Sprintf("Send #%d never returned (failure: event %d %s); blocked: %s", k+1, faults.failAt, faults.fired, strings.Join(s.Blocked(), "; ")))
 			case r.err != nil:
-				if faults.fired == "" {
-					s.Fail("send-spurious-error", fmt.Sprintf("Send #%d failed with %v although the stream never failed", k+1, r.err))
+				timedOut := ctxs[k].Err() != nil && errors.Is(r.err, ctxs[k].Err())
+				if faults.fired == "" && !timedOut {
+					s.Fail("send-spurious-error", fmt.Sprintf("Send #%d failed with %v although the stream never failed and its context did not expire", k+1, r.err))
 				}
 			default:
 				if len(r.resp.Puts) != 1 || r.resp.Puts[0].Version.VersionId != int64(k+1) {
@@ -721,7 +776,7 @@ func bodyB(v bVariant) func(s *vsched.Sched) {
 				}
 			}
 		}
-		if !w.panicked && faults.fired != "" && !sw.Failed() {
+		if !w.panicked && faults.fired != "" && !v.executor && !failed() {
 			s.Fail("stream-not-marked-failed", fmt.Sprintf("the stream failed (%s) but the wrapper is still handed out as healthy", faults.fired))
 		}
 		s.Data = fmt.Sprintf("fail@%d/%s %s", faults.failAt, faults.fired, strings.Join(out, ","))
@@ -1553,10 +1608,14 @@ func scenarios(tier string) []sched.Scenario {
 		{name: "a-mixed-3x2-count2", linger: 5 * time.Millisecond, maxReq: 2, maxBytes: big, callers: [][]op{{P("p1", 4), G("g1")}, {D("d1"), G("g2")}, {P("p2", 4), D("d0")}}, nFreeW: 1, nFreeR: 1, dev: [2]int{2, 3}},
 	}
 	bs := []bVariant{
-		{"b-stream-2senders", 2, 1, false, [2]int{3, 6}},
-		{"b-stream-2senders-fatal-send", 2, 1, true, [2]int{3, 4}},
-		{"b-stream-2x2sends", 2, 2, false, [2]int{2, 4}},
-		{"b-stream-3senders", 3, 1, false, [2]int{2, 4}},
+		{name: "b-stream-2senders", senders: 2, per: 1, dev: [2]int{3, 6}},
+		{name: "b-stream-2senders-fatal-send", senders: 2, per: 1, fatal: true, dev: [2]int{3, 4}},
+		{name: "b-stream-2x2sends", senders: 2, per: 2, dev: [2]int{2, 4}},
+		{name: "b-stream-3senders", senders: 3, per: 1, dev: [2]int{2, 4}},
+		{name: "b-stream-slow-server-timeout-2senders", senders: 2, per: 1, slow: true, deadline: []int{0}, dev: [2]int{3, 5}},
+		{name: "b-stream-slow-server-timeout-2x2sends", senders: 2, per: 2, slow: true, deadline: []int{0}, dev: [2]int{2, 4}},
+		{name: "b-stream-slow-server-timeouts-3senders", senders: 3, per: 1, slow: true, deadline: []int{0, 1}, dev: [2]int{2, 3}},
+		{name: "b-executor-slow-server-timeout-2x2sends", senders: 2, per: 2, slow: true, deadline: []int{0}, executor: true, dev: [2]int{2, 3}},
 	}
 	cs := []cVariant{
 		{"c-scan-partition", partitionInputs("scan"), [2]int{3, 5}},
@@ -1588,8 +1647,15 @@ func scenarios(tier string) []sched.Scenario {
 	for _, v := range cs {
 		out = append(out, sched.Scenario{Name: v.name, Cfg: base, MaxDev: v.dev[t], Body: bodyC(v)})
 	}
+	slowCfg := base
+	slowCfg.TimersRace = true
+	slowCfg.RaceWindow = int64(200 * time.Millisecond) // request deadline (+50 ms) and server catch-up (+100 ms) race with everything; the harness sleep (1 s) does not
 	for _, v := range bs {
-		out = append(out, sched.Scenario{Name: v.name, Cfg: base, MaxDev: v.dev[t], Body: bodyB(v)})
+		cfg := base
+		if v.slow {
+			cfg = slowCfg
+		}
+		out = append(out, sched.Scenario{Name: v.name, Cfg: cfg, MaxDev: v.dev[t], Body: bodyB(v)})
 	}
 	for _, v := range as {
 		cfg := base
